@@ -71,6 +71,20 @@ def build_harness():
     return PV
 
 
+def build_ls():
+    """parol-ls built from the current tree with the verification gate compiled in"""
+    t = time.time()
+    repo = (ALT_REPO or "/repo").rstrip("/")
+    tdir = os.path.join(BUILD, "ls")
+    r = sh(["cargo", "build", "-p", "parol-ls", "--offline", "--quiet", "--target-dir", tdir], cwd=repo, timeout=2400,
+           env={"CARGO_NET_OFFLINE": "true", "RUSTFLAGS": "--cfg parol_verif --check-cfg cfg(parol_verif)",
+                "CARGO_PROFILE_DEV_DEBUG": "0", "CARGO_PROFILE_DEV_OPT_LEVEL": "1"})
+    if r.returncode != 0:
+        raise ToolError("parol-ls build failed:\n" + r.stdout[-4000:])
+    log(f"[build] parol-ls ok in {time.time()-t:.1f}s")
+    return os.path.join(tdir, "debug", "parol-ls")
+
+
 def pv(args, timeout=3600, stdin=None, env=None):
     e = dict(os.environ)
     if env:
